@@ -18,6 +18,18 @@ CHECKS = {
          "Generated models x {bfs,dfs,on-demand,simulation} x threads x all six finish conditions; every path from discoveries() is re-validated step by step against the model and the per-expectation end condition by a validator that shares no code with Path::from_fingerprints.",
          "Trusted: the path validator and graph interpreter. Only results after the workers finished are examined.",
          "property-based testing (proptest) with a validity-predicate oracle", "DESIGN.md section 5 / C03"),
+ "C06": ("exploration",
+         "Differential testing of the real ActorModel transition relation against an independent reference interpreter on generated table-driven actor systems: enabled-action multisets, None-ness and every successor component for every reachable (state, action) within a bound.",
+         "Trusted: the reference interpreter (appendix B of DESIGN.md, ~150 lines), the field-by-field state conversion. 'Touched but equal' handlers are not generated.",
+         "property-based testing (proptest): differential testing against a reference interpreter", "DESIGN.md section 5 / C06"),
+ "C07": ("exploration",
+         "An independent network model (FIFO per flow / multiset / live set) is advanced along every explored path of generated sender-heavy systems and compared with the real network after each step; len/iter_all/iter_deliverable must agree with the contents on every visited and on constructor-built networks.",
+         "Trusted: RefNet (60 lines). Network contents are read through the public enum variants.",
+         "property-based testing (proptest): model-based testing against a reference network", "DESIGN.md section 5 / C07"),
+ "C09": ("fault_enumeration",
+         "For generated small systems the bounded state space is enumerated exhaustively, so every allowed crash point of every execution within the bound is taken and compared with the reference (enabling, successor, silence of crashed actors); spawn_bfs/spawn_dfs must evaluate every reachable crash combination and report the structural state count.",
+         "Bound: <= 3 actors, network <= 3 messages, capped history; systems exceeding the state cap are labelled and not counted as exhaustive. Trusted: reference interpreter.",
+         "property-based generation of systems + exhaustive crash-point enumeration against a reference interpreter", "DESIGN.md section 5 / C09"),
  "C11": ("exploration",
          "Generated models with eventually-properties: soundness on arbitrary shapes under all strategies (reported => a maximal avoiding path exists), exactness on generated forests under the exhaustive strategies.",
          "Trusted: the 'maximal path avoiding the condition' oracle (dead end or cycle in the avoiding subgraph) and the forest test.",
